@@ -45,7 +45,7 @@ class C02(Check):
                        "feat:repeated-key", "feat:qudit-measure", "feat:classical-control", "feat:sympy-condition",
                        "feat:bitmask-condition", "feat:indexed-condition", "feat:pauli-measure", "feat:reset", "feat:subcircuit", "feat:subcircuit-key-map", "feat:subcircuit-rep-ids",
                        "sim:sv", "sim:dm", "sim:clifford", "sim:stab-sampler", "entry:run", "entry:simulate",
-                       "entry:steps", "entry:sample", "entry:run_sweep", "entry:sweep-from-state", "entry:direct-functions", "init:density-matrix", "entry:stabilizer-measure", "entry:wide-register", "mux:subcircuit-clifford-only-as-product", "entry:step-sampling", "step-sampling:integer-seed", "direct:sample_from_amplitudes", "direct:measure_density_matrix", "gen:deep-clifford", "init:vector", "init:int", "order:permuted", "order:spectator"]
+                       "entry:steps", "entry:sample", "entry:run_sweep", "entry:sweep-from-state", "entry:direct-functions", "init:density-matrix", "entry:stabilizer-measure", "entry:wide-register", "mux:clifford-only-as-product", "entry:step-sampling", "step-sampling:integer-seed", "direct:sample_from_amplitudes", "direct:measure_density_matrix", "gen:deep-clifford", "init:vector", "init:int", "order:permuted", "order:spectator"]
 
     def setup(self) -> None:
         from simkit import repoenv
@@ -76,6 +76,7 @@ class C02(Check):
         g = qgen.Gen(tape, clifford_only=clifford, allow_channels=False, allow_qudits=not clifford,
                      leaf_bits_cap=(5.0 if deep_clifford else 8.0), max_ops=(36 if deep_clifford else 11),
                      allow_subcircuits=not deep_clifford)
+        g.product_clifford_gates = clifford and not deep_clifford
         circuit = g.circuit()
         if deep_clifford:
             # long entangling Clifford history, then every qubit measured separately: after the first
@@ -115,7 +116,7 @@ class C02(Check):
         max_reps = max(1, int(8.6 // bits))
         reps = 1 + tape.draw(min(3, max_reps), "reps")
         # simulator configuration
-        product_clifford = "subcircuit-clifford-only-as-product" in g.features
+        product_clifford = "clifford-only-as-product" in g.features
         if clifford and product_clifford:
             # not runnable by the stabilizer simulators (rightly); what is under test is the general
             # simulators and, through cirq.sample, the choice of simulator
@@ -136,7 +137,7 @@ class C02(Check):
         entry = entries[tape.weighted(weights, "entry")]
         if product_clifford and tape.chance(2, 3, "mux-on-product-clifford?"):
             entry = "sample"
-            ctx.probe("mux:subcircuit-clifford-only-as-product")
+            ctx.probe("mux:clifford-only-as-product")
         if kind in ("sv", "dm") and not clifford:
             # cirq.sample() picks a simulator from the circuit's content; the interesting inputs are the
             # ones on which its "is this a Clifford circuit" test says yes for an unusual reason
